@@ -267,6 +267,8 @@ def functional_procedures(ctx: Ctx) -> Dict[str, str]:
         for n in ast.walk(m.tree):
             if isinstance(n, ast.Call) and isinstance(n.func, ast.Name) and n.func.id in ("BasicFunctionalExpression",) and n.args:
                 a = n.args[0]
+                if isinstance(a, ast.Name) and isinstance(m.assigns.get(a.id), ast.Constant):
+                    a = m.assigns[a.id]  # a module-level named constant
                 if isinstance(a, ast.Constant) and isinstance(a.value, str) and a.value.lower().startswith("run "):
                     out[a.value.split()[1]] = f"{rel}:{n.lineno}"
             if isinstance(n, ast.Call) and isinstance(n.func, ast.Attribute) and n.func.attr == "__init__" and n.args:
